@@ -113,6 +113,20 @@ def run(tier, seed):
     for i in range(0, len(specs), 6):
         src = "x = 42\ny = 3.14159\nz = 'héllo'\n" + "".join("print '{x:%s} {y:%s}' + \"{z:%s}\"\n" % (sp, sp, sp) for sp in specs[i:i + 6])
         texts.append(("specs:%d" % i, src, None))
+    # block positions x expression forms x comments (FmtShapes.tla)
+    sh = common.run_tlc("FmtShapes", "FmtShapes.cfg", workers=1, coverage=False, timeout=600)
+    if sh.rc != 0:
+        raise common.ToolError("FmtShapes.tla failed:\n" + sh.stdout[-2000:])
+    shapes = sorted(common.tlc_values(sh, "SHAPES")[0], key=lambda x: x["text"])
+    if quick:
+        # the quick tier keeps every (header, body) pair once, the decoration drawn at random; and every decoration of the map bodies
+        by = {}
+        for x in shapes:
+            by.setdefault((x["h"], x["b"]), []).append(x)
+        shapes = [rng.choice(v) for k, v in sorted(by.items())] + [x for x in shapes if x["b"] in ("{a: 1}", "a: 1", "{}", "|a| {a}") and x["d"] != "none"]
+    nshapes = len(shapes)
+    for i, x in enumerate(shapes):
+        texts.append(("shape:%d" % i, x["text"], None))
     if not quick:
         for s in corpus.sources():
             for k, v in enumerate(corpus.token_neighbourhood(s["src"], rng, 6)):
@@ -132,7 +146,11 @@ def run(tier, seed):
     def chain_lines(t):
         return sum(1 for ln in t.split("\n") if ln.lstrip().startswith("."))
     # in the domain: the reference layout fits, and it breaks no chain that the text as given has on one line
-    in_domain = {j["id"]: (r.get("status") == "ok" and r.get("max_width", 10 ** 6) <= j["line_length"]
+    # (the formatter's own width estimate of a bracketed group counts the trailing comma it would write if the group were broken:
+    # one more column per bracket pair on the line, crates/format/src/format.rs FormatItem::line_length / maybe_char)
+    def slack(t):
+        return max([sum(ln.count(c) for c in ")]}") for ln in t.split("\n")] or [0])
+    in_domain = {j["id"]: (r.get("status") == "ok" and r.get("max_width", 10 ** 6) + slack(r.get("text", "")) <= j["line_length"]
                            and chain_lines(r.get("text", "")) <= chain_lines(j["src"]) and not r.get("odd_shapes"))
                  for j, r in zip(jobs, refs)}
     dom_count = {ll: [0, 0] for ll in LENGTHS}
@@ -226,9 +244,9 @@ def run(tier, seed):
     rep.coverage = {
         "evaluations": len(jobs), "distinct_nontrivial": formatted,
         "rule": "inputs: corpus (%d texts), generated programs of all KotoCore families in random layouts with comments (some with "
-                "non-ASCII identifiers and string contents)%s; options: default plus %s of the 72-point grid line_length {20,40,60,100,160,255} x "
+                "non-ASCII identifiers and string contents), %d block-position shapes of FmtShapes.tla (headers x bodies x comment decorations)%s; options: default plus %s of the 72-point grid line_length {20,40,60,100,160,255} x "
                 "indent_width {2,4} x chain_break_threshold {0,2,4} x always_indent_arms; counted: (text, options) pairs in the domain (nothing needs breaking: every line of the layout for line_length 255 fits)" % (
-                    len(corpus.sources()), "" if quick else ", corpus token neighbourhood", "1 random point" if quick else "4 random points"),
+                    len(corpus.sources()), nshapes, "" if quick else ", corpus token neighbourhood", "1 random point" if quick else "4 random points"),
         "samples": [{"input": texts[-1][1][:400]}],
         "states": st["states"] + tl.distinct, "transitions": st["transitions"] + tl.states_generated,
         "traces_validated_against_impl": len(traces), "meaning_reruns": len(rerun), "format_traces_rejected": nbad,
